@@ -248,7 +248,10 @@ pub fn make_module() -> KMap {
                 };
 
                 let mut cache = ValueMap::with_capacity(m.len());
-                m.data_mut().sort_by(|key_a, value_a, key_b, value_b| {
+                // The key function (and overridden comparison operators) could access the map,
+                // so a copy of its data gets sorted.
+                let mut sorted = m.data().clone();
+                sorted.sort_by(|key_a, value_a, key_b, value_b| {
                     if error.is_some() {
                         return Ordering::Equal;
                     }
@@ -286,6 +289,7 @@ pub fn make_module() -> KMap {
                 if let Some(error) = error {
                     error
                 } else {
+                    *m.data_mut() = sorted;
                     Ok(KValue::Map(m))
                 }
             }
